@@ -43,33 +43,45 @@ def check(run):
 
 
 def split(run, p, fc):
-    run.rule('C04-SPLIT', 'actual text and reference text are cut into lines by the same primitive in every entry point '
-                          '(str.splitlines on both sides), so the same content gives the same line list')
+    from ..pyeval import Interp, Obj, Unsupported, Raised, FakeFS, pure_os, pure_sys
+    texts = ['a\nb\nc\n', 'a\r\nb\rc\nd', 'x\x0by\x0cz\n', 'p\x1cq\x1dr\x1es\n', 'u\u2028v\u2029w\x85t', 'last line no newline', '', '\n', '\n\n']
+    run.rule('C04-SPLIT', 'actual text and reference text are cut into lines alike in every entry point: check_file given two files '
+                          'with the same content, and check_string_against_file given a string and a file with that content, hand '
+                          'check_strings two equal line lists - evaluated for %d texts holding every line terminator Python knows '
+                          '(\\n, \\r\\n, \\r, VT, FF, FS/GS/RS, NEL, U+2028/2029), no final newline and empty content' % len(texts))
     n = 0
     for name in ('check_file', 'check_string_against_file'):
         f = fc.methods[name]
-        kinds = {}
-        for s in ast.walk(f.node):
-            if isinstance(s, ast.Assign) and len(s.targets) == 1 and isinstance(s.targets[0], ast.Name):
-                t = s.targets[0].id
-                side = 'E' if t.startswith('expected') and not t.endswith('newline') else ('A' if t.startswith('actual') and not t.endswith('newline') else None)
-                if side is None:
-                    continue
-                v = s.value
-                k = None
-                if isinstance(v, ast.Call) and isinstance(v.func, ast.Attribute) and v.func.attr in ('splitlines', 'split', 'readlines'):
-                    k = v.func.attr + '(' + ','.join(norm(a) for a in v.args) + ')'
-                elif isinstance(v, (ast.ListComp, ast.GeneratorExp)):
-                    k = 'comprehension over ' + norm(v.generators[0].iter)[:20]
-                elif isinstance(v, ast.Name):
-                    continue
-                if k:
-                    kinds.setdefault(side, set()).add(k)
-        n += 1
-        a, e = kinds.get('A', set()), kinds.get('E', set())
-        ok = bool(e) and (a == e or not a) and all(k.startswith('splitlines') for k in a | e)
-        run.ob('C04-SPLIT', '%s::%s' % (f.rel, f.short), ok, '%s: actual lines by %s, expected lines by %s' % (name, sorted(a) or 'caller', sorted(e)), fn=f)
-    run.floor('C04-SPLIT', n, 2)
+        bad = []
+        for text in texts:
+            fs = FakeFS({'/t/ref.txt': text, '/t/act.txt': text})
+            seen = []
+            I = Interp(p)
+            I.extra_names.update({'open': fs.open, 'os': pure_os(), 'sys': pure_sys()})
+
+            def hook(m, args, kwargs, selfobj, seen=seen):
+                if m.name == 'check_strings':
+                    seen.append((list(args[0]), list(args[1])))
+                    return True, (0, kwargs.get('msgs'))
+                return False, None
+            I.on_call = hook
+            o = Obj(fc)
+            o.attrs.update(print_fn=None, verbose=False, tmp_dir='/nowhere')
+            try:
+                if name == 'check_file':
+                    I.call(f, ['/t/act.txt', '/t/ref.txt'], selfobj=o)
+                else:
+                    I.call(f, [text, '/t/ref.txt'], selfobj=o)
+            except (Unsupported, Raised) as e:
+                raise AnalysisError('%s is not evaluable: %s' % (name, e))
+            n += 1
+            if len(seen) != 1:
+                bad.append((text, 'check_strings is called %d times' % len(seen)))
+            elif seen[0][0] != seen[0][1]:
+                bad.append((text, 'actual lines %r, reference lines %r' % seen[0]))
+        run.ob('C04-SPLIT', '%s::%s' % (f.rel, f.short), not bad,
+               '%s: the same content on both sides gives the same lines%s' % (name, '' if not bad else ' - not for %r: %s' % bad[0]), fn=f)
+    run.floor('C04-SPLIT', n, 18)
 
 
 def prop(run, p, pid, assert_names):
